@@ -102,10 +102,7 @@ class MosCollection:
         logger.info("Making MosCollection from %s MosReaders", len(mos_readers))
         self._mos_readers = mos_readers
         self._ro = None
-        try:
-            self._validate(allow_incomplete=allow_incomplete)
-        except AssertionError as e:
-            raise InvalidMosCollection(f"Failed to validate MosCollection: {e}") from e
+        self._validate(allow_incomplete=allow_incomplete)
 
     @classmethod
     def from_files(cls, mos_file_paths: List[Union[Path, str]], *, allow_incomplete: bool = False):
@@ -260,19 +257,25 @@ class MosCollection:
         Check a single roCreate is present, and if *allow_incomplete* is True,
         also check a single roDelete is present.
         """
+        def check(condition: bool, message: str):
+            # not an assert statement: validation must survive python -O
+            if not condition:
+                raise InvalidMosCollection(f"Failed to validate MosCollection: {message}")
+
+        check(len(self.mos_readers) > 0, "no MOS files given")
         ro_id = self.mos_readers[0].ro_id
-        assert all(mr.ro_id == ro_id for mr in self.mos_readers), "Mixed RO IDs found"
+        check(all(mr.ro_id == ro_id for mr in self.mos_readers), "Mixed RO IDs found")
         ro_creates = [
             mr for mr in self.mos_readers if mr.mos_type == RunningOrder
         ]
-        assert len(ro_creates) == 1, f"{len(ro_creates)} roCreates found"
+        check(len(ro_creates) == 1, f"{len(ro_creates)} roCreates found")
         self._ro = ro_creates[0].mos_object
         ro_deletes = [
             mr for mr in self.mos_readers if mr.mos_type == RunningOrderEnd
         ]
-        assert len(ro_deletes) < 2, f"{len(ro_deletes)} roDeletes found"
+        check(len(ro_deletes) < 2, f"{len(ro_deletes)} roDeletes found")
         if not allow_incomplete:
-            assert len(ro_deletes) == 1, f"{len(ro_deletes)} roDeletes found"
+            check(len(ro_deletes) == 1, f"{len(ro_deletes)} roDeletes found")
         self._mos_readers = [
             mr for mr in self.mos_readers if mr.mos_type != RunningOrder
         ]
